@@ -215,7 +215,8 @@ def emit : Handler := fun req => do
       let specEdges : List (String × String × String) := ((arr (fieldD inp "edges" (Json.arr #[]))).toOption.getD []).filterMap fun e => match e with
         | .arr #[.str a, .str k, .str b] => some (a, k, b) | _ => none
       let classOf (n : String) : String :=
-        let ks := (specEdges.filter fun e => e.1 == n).map (·.2.1)
+        -- a `disc` edge X→n makes n an allOf child of X (it inherits X's members)
+        let ks := (specEdges.filter fun e => e.1 == n).map (·.2.1) ++ (if specEdges.any (fun e => e.2.1 == "disc" && e.2.2 == n) then ["allOf"] else [])
         if ks.contains "oneOf" || ks.contains "anyOf" then "KnownDefaultRecursionUnion"
         else if ks.contains "req" || ks.contains "allOf" then "KnownDefaultRequiredCycle"
         else ""
